@@ -77,6 +77,10 @@ type remoteAuthorizer struct {
 type authorizationInformation struct {
 	Headers http.Header `json:"headers"`
 	Payload any         `json:"payload"`
+	// RawPayload holds the received response body, if the decoded payload would not survive
+	// the JSON encoding used to cache this object (like integers in a YAML document, or the
+	// values of a form). In that case the body is cached and decoded again when reused.
+	RawPayload []byte `json:"raw_payload,omitempty"`
 }
 
 func (ai *authorizationInformation) addHeadersTo(headerNames []string, ctx heimdall.Context) {
@@ -159,7 +163,11 @@ func (a *remoteAuthorizer) Execute(ctx heimdall.Context, sub *subject.Subject) e
 		if entry, err := cch.Get(ctx.AppContext(), cacheKey); err == nil {
 			var ai authorizationInformation
 
-			if err = json.Unmarshal(entry, &ai); err == nil {
+			if err = json.Unmarshal(entry, &ai); err == nil && len(ai.RawPayload) != 0 {
+				ai.Payload, err = a.decodePayload(ctx, ai.Headers.Get("Content-Type"), ai.RawPayload)
+			}
+
+			if err == nil {
 				logger.Debug().Msg("Reusing authorization information from cache")
 
 				// the response has been cached after a successful verification using the expressions
@@ -181,7 +189,12 @@ func (a *remoteAuthorizer) Execute(ctx heimdall.Context, sub *subject.Subject) e
 		}
 
 		if a.ttl > 0 && len(cacheKey) != 0 {
-			data, _ := json.Marshal(authInfo)
+			toCache := *authInfo
+			if len(toCache.RawPayload) != 0 {
+				toCache.Payload = nil
+			}
+
+			data, _ := json.Marshal(toCache)
 
 			if err = cch.Set(ctx.AppContext(), cacheKey, data, a.ttl); err != nil {
 				logger.Warn().Err(err).Msg("Failed to cache authorization information")
@@ -286,7 +299,7 @@ func (a *remoteAuthorizer) doAuthorize(
 
 	defer resp.Body.Close()
 
-	data, err := a.readResponse(ctx, resp)
+	data, rawData, err := a.readResponse(ctx, resp)
 	if err != nil && !errors.Is(err, errNoContent) {
 		return nil, err
 	}
@@ -296,14 +309,16 @@ func (a *remoteAuthorizer) doAuthorize(
 		return nil, err
 	}
 
-	return &authorizationInformation{Headers: resp.Header, Payload: data}, nil
+	return &authorizationInformation{Headers: resp.Header, Payload: data, RawPayload: rawData}, nil
 }
 
-func (a *remoteAuthorizer) readResponse(ctx heimdall.Context, resp *http.Response) (any, error) {
+// readResponse returns the decoded payload of the response. The received body is returned in addition,
+// if it has to be cached instead of the decoded payload (see authorizationInformation).
+func (a *remoteAuthorizer) readResponse(ctx heimdall.Context, resp *http.Response) (any, []byte, error) {
 	logger := zerolog.Ctx(ctx.AppContext())
 
 	if !(resp.StatusCode >= http.StatusOK && resp.StatusCode < http.StatusMultipleChoices) {
-		return nil, errorchain.NewWithMessagef(heimdall.ErrAuthorization,
+		return nil, nil, errorchain.NewWithMessagef(heimdall.ErrAuthorization,
 			"authorization failed based on received response code: %v", resp.StatusCode).
 			WithErrorContext(a)
 	}
@@ -311,17 +326,33 @@ func (a *remoteAuthorizer) readResponse(ctx heimdall.Context, resp *http.Respons
 	if resp.ContentLength == 0 {
 		logger.Debug().Msg("No content received")
 
-		return nil, errNoContent
+		return nil, nil, errNoContent
 	}
 
 	rawData, err := io.ReadAll(resp.Body)
 	if err != nil {
-		return nil, errorchain.NewWithMessage(heimdall.ErrInternal, "failed to read response").
+		return nil, nil, errorchain.NewWithMessage(heimdall.ErrInternal, "failed to read response").
 			WithErrorContext(a).
 			CausedBy(err)
 	}
 
 	contentType := resp.Header.Get("Content-Type")
+
+	result, err := a.decodePayload(ctx, contentType, rawData)
+	if err != nil {
+		return nil, nil, err
+	}
+
+	if _, isString := result.(string); isString || strings.Contains(contentType, "json") {
+		// survives the JSON encoding as is
+		return result, nil, nil
+	}
+
+	return result, rawData, nil
+}
+
+func (a *remoteAuthorizer) decodePayload(ctx heimdall.Context, contentType string, rawData []byte) (any, error) {
+	logger := zerolog.Ctx(ctx.AppContext())
 
 	decoder, err := contenttype.NewDecoder(contentType)
 	if err != nil {
